@@ -148,7 +148,14 @@ func (w *World) BuildEvent(chain string, ev Act) (mhubtypes.ExternalEvent, error
 		var ms []*mhubtypes.ExternalSigner
 		for _, m := range ev.L("m") {
 			p := m.([]interface{})
-			pw, _ := new(big.Int).SetString(asStr(p[1]), 10)
+			var pw *big.Int
+			if l, ok := p[1].([]interface{}); ok && len(l) == 2 { // [hi, lo] 16 bit limbs
+				hi, _ := new(big.Int).SetString(asStr(l[0]), 10)
+				lo, _ := new(big.Int).SetString(asStr(l[1]), 10)
+				pw = new(big.Int).Add(new(big.Int).Lsh(hi, 16), lo)
+			} else {
+				pw, _ = new(big.Int).SetString(asStr(p[1]), 10)
+			}
 			ms = append(ms, &mhubtypes.ExternalSigner{ExternalAddress: w.N.ExtString(asStr(p[0])), Power: pw.Uint64()})
 		}
 		if ms == nil && !ev.Has("nilm") {
